@@ -116,7 +116,7 @@ def cases(tier, seed):
     else:
         base = base + shapes.pairs(tier) + shapes.space_depth3(tier)
         for p in base:
-            sets = S_PRODUCT if p.get("ctx") in ("def", "member_opt", "map_value", "pair_struct") else (S_DEFAULT, S_BUILDER)
+            sets = S_PRODUCT if (p.get("ctx") in ("def", "map_value", "pair_struct") and "member2[" not in p["id"]) else (S_DEFAULT, S_BUILDER)
             for i, st in enumerate(sets):
                 out.append(dict(p, id="%s#s%d" % (p["id"], i), settings=st, family="depth2"))
         out += [dict(c, settings=c.get("settings", S_BUILDER)) for c in collision_family()]
